@@ -81,6 +81,15 @@ class DefRuntime:
         condition.__name__ = "cond_{}".format(c)
         return condition
 
+    def deco(self, kind: str, c: int) -> Any:
+        """The decorator object for contract c; one object per ordinal, re-used wherever the ordinal occurs again
+        (positive = icontract.require(is_positive) applied to several functions shares ONE contract object)."""
+        cache = self.__dict__.setdefault("_deco_cache", {})
+        if (kind, c) not in cache:
+            ic = self.ic
+            cache[(kind, c)] = ic.require(self.cond(c, "pre")) if kind == "require" else ic.ensure(self.cond(c, "post"))
+        return cache[(kind, c)]
+
     def foreign(self, fn: Any) -> Any:
         rt = self
 
@@ -119,9 +128,9 @@ class DefRuntime:
             if d["d"] == "foreign":
                 obj = self.foreign(obj)
             elif d["d"] == "require":
-                obj = ic.require(self.cond(d["c"], "pre"))(obj)
+                obj = self.deco("require", d["c"])(obj)
             elif d["d"] == "ensure":
-                obj = ic.ensure(self.cond(d["c"], "post"))(obj)
+                obj = self.deco("ensure", d["c"])(obj)
             elif d["d"] == "snapshot":
                 cap = lambda: None  # noqa
                 cap._icv_c = d["c"]  # type: ignore
